@@ -73,3 +73,10 @@ Definition decide_then_save (readdir : dir -> list Store.name) (c : cfg) (now_ca
   | RDecision true => snd (mgr_step readdir c now_save m (MSave st))
   | _ => m
   end.
+
+(* the interval of a time policy does not elapse at any of the should_checkpoint calls the sequential
+   engine makes after the nodes lo .. hi-1 (`clock j 0`), counted from a save at time t0: the clock
+   reads before t0 or less than s seconds after it.  Holds for every run shorter than s seconds, and
+   for s = u64::MAX ("never by time") on every clock below 2^64 seconds. *)
+Definition interval_pending (clock : nat -> nat -> Z) (s t0 : Z) (lo hi : nat) : Prop :=
+  forall j, (lo <= j < hi)%nat -> (clock j 0%nat < t0 \/ clock j 0%nat - t0 < s * 1000000000)%Z.
